@@ -407,6 +407,20 @@ def run_session(rundir: str, spec: dict) -> dict:
             md = Metadata.create(token, {"name": name, "v": 2}, own)
             assert p.add_credential(token, md, set()) is not None
             creds[name] = (token, md)
+        elif kind == "latecontent":
+            # ("latecontent", name, size): a token of our chain is first known by its hash only (the public form, as it
+            # travels in disclosures), later the same token arrives together with its content - both through
+            # add_credential; the second call stores (and acknowledges) the complete record
+            _, name, size = op
+            p = need_identity()
+            from ipv8.attestation.identity.metadata import Metadata
+            from ipv8.attestation.tokentree.token import Token
+            full = Token(p.tree.genesis_hash, content=det_bytes("late:" + name, size), private_key=own)
+            bare = Token.unserialize(full.get_plaintext_signed(), own.pub())
+            md = Metadata.create(full, {"name": name, "v": 3}, own)
+            assert p.add_credential(bare, md, set()) is not None
+            assert p.add_credential(full, md, set()) is not None
+            creds[name] = (full, md)
         elif kind == "again":
             # ("again", name): the same credential arrives once more (INSERT OR IGNORE path)
             p = need_identity()
